@@ -130,9 +130,8 @@ theorem dict_order_independent (m₁ m₂ : List (Bytes × Bytes)) (hw : Dict.WF
 
 theorem dict_keys_sorted (m : List (Bytes × Bytes)) :
     (canonSortRaw m).Pairwise (fun a b => lenLexLe a.1 b.1 = true) := by
-  have := List.pairwise_mergeSort (le := fun (a b : Bytes × Bytes) => lenLexLe a.1 b.1)
+  exact isort_pairwise (fun (a b : Bytes × Bytes) => lenLexLe a.1 b.1)
     (fun a b c h1 h2 => lenLexLe_trans _ _ _ h1 h2) (fun a b => lenLexLe_total _ _) m
-  simpa [canonSortRaw] using this
 
 /-! ## histories -/
 
